@@ -71,7 +71,7 @@ def run(ctx):
     if ctx.tier == 'thorough':
         alphabet = ['w0:01', 'w9:0203', 'w1:040506', 'w0:', 'b9:1', 'r0', 'r9', 'r1', 'e']
         for cap in (1, 2, 3, 4):
-            for n in range(1, 8):
+            for n in range(1, 6):
                 for ops in itertools.product(alphabet, repeat=n):
                     if ops[0] == 'e': continue
                     R.add_corr('queue %d %s' % (cap, ' '.join(ops)), ('exhaustive_cap%d' % cap,), n >= 4)
